@@ -39,9 +39,22 @@ def _child(fn, case, conn):
         os._exit(0)
 
 
+def _cpu_of(pid):
+    """CPU seconds (user + system, all threads) a live child has used so far; None if it cannot be read."""
+    try:
+        with open('/proc/%d/stat' % pid) as f:
+            rest = f.read().rsplit(')', 1)[1].split()
+        return (int(rest[11]) + int(rest[12])) / os.sysconf('SC_CLK_TCK')
+    except Exception:       # noqa
+        return None
+
+
 def run_cases(fn, cases, procs=12, timeout=240):
-    """Run fn(case) for every case, each in its own forked process, at most ``procs`` at a time.  A case that does not
-    finish within its bound (case['timeout'] or ``timeout`` seconds) is killed and reported as status 'timeout'."""
+    """Run fn(case) for every case, each in its own forked process, at most ``procs`` at a time.  A case is bounded by
+    the CPU time it may use (case['timeout'] or ``timeout`` CPU seconds: on a shared machine a wall-clock bound would
+    turn starved cases into undecided ones; CPU time still grows somewhat under heavy oversubscription -- the handoffs of
+    the deterministic scheduler get more expensive -- so the bounds are several times the typical cost) and, as a
+    backstop, by 4x that in wall-clock seconds; a case over either bound is killed and reported as status 'timeout'."""
     import multiprocessing as mp
     from multiprocessing.connection import wait
     ctx = mp.get_context('fork')
@@ -66,11 +79,14 @@ def run_cases(fn, cases, procs=12, timeout=240):
                 p.join()
                 r.close()
                 del running[i]
-            elif time.time() - t0 > lim:
+                continue
+            used = _cpu_of(p.pid)
+            if (used is not None and used > lim) or time.time() - t0 > 4 * lim:
                 p.kill()
                 p.join()
                 r.close()
-                results[i] = {'status': 'timeout', 'exc': 'no result within %d s' % lim, 'where': '', 'wall': round(time.time() - t0, 1)}
+                results[i] = {'status': 'timeout', 'exc': 'no result within %d CPU seconds (or %d s wall)' % (lim, 4 * lim), 'where': '',
+                              'wall': round(time.time() - t0, 1), 'cpu': round(used or 0, 1)}
                 del running[i]
     return results
 
